@@ -38,6 +38,9 @@ def obligations(tier):
         big = len(attrs(q)) >= 2
         for cname, ai, rx in CONFIGS:
             obs.append(_ob(f"rm/{q_repr(q)}/{cname}", q=q, kind="rm", ai=ai, reindex=rx, alpha="small" if th or not big else "sel", n=3 if th or len(attrs(q)) < 3 else 2, split_op=True, budget=300 if th else 60, torder="sym" if ("time" in attrs(q) or th) else "ooo", read=("time", ">=", SYM)))
+    for q in (("field", "f", OP, SYM), ("not", C), ("and", B, C)):
+        for cname, ai, rx in CONFIGS[:2]:
+            obs.append(_ob(f"rm-floats/{q_repr(q)}/{cname}", q=q, kind="rm", ai=ai, reindex=rx, alpha="sel", n=2 if not th else 3, floats=True, split_op=True, torder="ooo"))
     for mf in ("m", "n", "zz"):
         for q in (A, B, ("not", C)):
             for cname, ai, rx in CONFIGS[:2]:
